@@ -186,3 +186,9 @@ def replay(c: Campaign, rec: dict[str, Any]) -> int:
         return 1
     print("replay: no violation")
     return 0
+
+
+def regress(c: Campaign, rec: dict[str, Any]) -> None:
+    case = rec["case"]
+    run_ = Run(case["spec"], make_schedule(case["schedule"])).drain()
+    judge(c, c.prop, case["spec"], run_, case["schedule"], True, ["regression"])
